@@ -23,6 +23,7 @@ using sim::strf;
 namespace net {
 
 World *g_world = nullptr;
+Node *g_handler_node = nullptr;
 static FILE *g_logf = nullptr;
 void set_log_file(FILE *f) { g_logf = f; }
 
@@ -268,7 +269,9 @@ void World::run(uint64_t t_end, uint64_t max_events) {
             if (rn.in_handler) snprintf(sim::g_shm->in_hand, sizeof sim::g_shm->in_hand, "frame#%llu", (unsigned long long)rn.handler_frame);
             else sim::g_shm->in_hand[0] = 0;
         }
+        g_handler_node = nodes[t->id].in_handler ? &nodes[t->id] : nullptr;
         tasks.switch_to(t);
+        g_handler_node = nullptr;
         if (t->state == sim::Task::DONE) {
             Node &n = nodes[t->id];
             if (!n.waiting) {  // report once
@@ -361,6 +364,7 @@ static void handler_done(World &w) {
     Node &n = w.cur_node();
     if (n.is_listener && n.in_handler) {
         n.in_handler = false;
+        g_handler_node = nullptr;
         w.count("ev.handler_done");
         if (w.hooks.on_handler_done) w.hooks.on_handler_done(w, w.cur_node_id());
     }
@@ -512,6 +516,7 @@ ssize_t __wrap_recv(int fd, void *buf, size_t len, int flags) {
         nd.handler_steps = 0;
         nd.handler_calls = 0;
         nd.handler_frame = f.id;
+        g_handler_node = &nd;
     }
     w.log("recv", f.id, n, f.data.data(), n);
     w.count("ev.recv");
@@ -634,7 +639,7 @@ ssize_t __wrap_read(int fd, void *buf, size_t len) {
         w.count("ev.timer_read");
         if (cnt > 1) w.count("ev.timer_multi_expiry");
         Node &nd = w.cur_node();
-        if (nd.is_listener) { nd.in_handler = true; nd.handler_steps = 0; nd.handler_calls = 0; nd.handler_frame = 0; }
+        if (nd.is_listener) { nd.in_handler = true; nd.handler_steps = 0; nd.handler_calls = 0; nd.handler_frame = 0; g_handler_node = &nd; }
         return 8;
     }
     errno = EINVAL;
